@@ -15,6 +15,9 @@ def single(cfg, name, args, mode="normal"):
     n = len(args)
     body = [["op", name, list(range(n))]]
     cfg = dict(cfg)
+    if mode.startswith("ignore+"):
+        cfg["ignore"] = True
+        mode = mode[len("ignore+"):]
     if mode == "ignore":
         cfg["ignore"] = True
         stmts += body
